@@ -163,6 +163,15 @@ def enumerate_cases(tier, shard=0, nshards=1):
                             'eval': 'H9', 'n': len(cells)})
     for kind in ('unknown', 'pyerror'):
         out.append({'k': 'faildepth', 'kind': kind})
+    # WIDE ladders: every formula mentions its precedent twice with a range
+    # of `width` other cells in between (=A2+SUM(C1:..1)+A2); the work must
+    # stay linear in depth x width whatever the width, whether the ladder
+    # ends in a value, a failure or a cycle
+    for width in (3, 64, 127, 128, 129, 200, 300):
+        for depth in (3, 6, 9):
+            for end in ('value', 'unknown', 'cycle'):
+                out.append({'k': 'wide', 'width': width, 'depth': depth,
+                            'end': end})
     # one Evaluator reused after a FAILED evaluation: once the cause is
     # gone the same cells must evaluate normally (no stale chain -> no bogus
     # cycle report)
@@ -534,8 +543,52 @@ def _compile_named(d, every_second):
         os.remove(fn)
 
 
+def _wide(case, res):
+    from vf.ref.refeval import num_to_col
+    xl = lib.lib()
+    w, n, end = case['width'], case['depth'], case['end']
+    res.nontrivial = True
+    res.labels = ('wide-ladder', end, 'width>=128' if w >= 128
+                  else 'width<128')
+    d = {}
+    last = num_to_col(2 + w)
+    for i in range(1, n + 1):
+        d['Sheet1!A%d' % i] = '=A%d+SUM(C%d:%s%d)+A%d' % (
+            i + 1, i, last, i, i + 1)
+        for c in range(3, 3 + w):
+            d['Sheet1!%s%d' % (num_to_col(c), i)] = 1
+    d['Sheet1!A%d' % (n + 1)] = {'value': 1, 'unknown': '=NOSUCHFN(1)',
+                                 'cycle': '=A1+1'}[end]
+    m = lib.compile_dict(d)
+    ev = xl.Evaluator(m)
+    import sys
+    sys.setrecursionlimit(max(sys.getrecursionlimit(), 20000))
+    linear = n * (w + 1) + 2
+    o, det, st = run_limited(ev, 'Sheet1!A1', 4 * linear + 16, n + 20)
+    if o == 'budget':
+        res.fail('wide-ladder-exceeds-linear-work:%s' % end,
+                 {'max_calls': 4 * linear + 16}, [det, st], [w, n])
+        return res
+    if end == 'value':
+        v = 1
+        for _ in range(n):
+            v = 2 * v + w
+        if o != 'value' or det != ('N', float(v)):
+            res.fail('wide-ladder-wrong-value', ('N', float(v)),
+                     [o, str(det)[:200]], [w, n])
+    elif o != 'exception':
+        res.fail('wide-ladder-failure-not-reported:%s' % end,
+                 'an exception', [o, str(det)[:200]], [w, n])
+    elif end == 'cycle' and 'cycle' not in det.lower():
+        res.fail('cycle-exception-without-cycle-report:wide', 'cycle',
+                 det[:200], [w, n])
+    return res
+
+
 def judge(case):
     res = Result()
+    if case['k'] == 'wide':
+        return _wide(case, res)
     if case['k'] == 'guarded':
         return _guarded(case, res)
     if case['k'] == 'faildepth':
